@@ -47,7 +47,7 @@ Your job: produce up to %(mx)d different, independent changes to the library (ea
   3. looks like a plausible mistake, "optimisation" or refactoring a maintainer could make (one to ~20 changed lines; no obviously malicious code, no special-casing of magic constants that no real code would have),
   4. is HARD TO NOTICE: it must need something specific to manifest - a particular multi-step sequence of operations, an unusual-but-legal input, a boundary value, a rare combination of two features, a particular entry point or configuration, a particular interleaving, or TWO COOPERATING SITES that each look fine alone (e.g. one site stops maintaining something another site relies on only in a rare state; a caller and a callee that each drop "their half" of a check). Changes that ordinary use would expose at once are NOT wanted. Fewer is better than easy: deliver none if every remaining idea would be exposed at once by ordinary inputs.
 
-Directions that earlier rounds used less: behaviour that depends on what happened EARLIER in the same object or the same stream (a value cached on first use, a flag not cleared on one of several exits, a buffer kept between calls); the second and later occurrences of something (second gradient, second chunk, second subpath, second Reset); combinations where two rarely-combined features meet (e.g. an adjustment AND a wrap-around, a relative operation right after a close, a smooth operation after a non-curve, a repeat run that ends exactly at a limit followed by a different verb); values next to the constants that the changed code compares against; narrowing of an intermediate (float64 -> float32, int -> uint8) that only matters for extreme but legal values; an error or early-return path that leaves state behind; public API surface that a test generator may not drive at all (exported fields, helper constructors, options, wrappers, zero values). Read the statement clause by clause and look for the clause that is hardest to observe.
+Directions that earlier rounds used less (pick the ones that fit this property): behaviour that depends on what happened EARLIER in the same object, the same stream or the same process (a value cached on first use, a flag not cleared on one of several exits, a buffer or pooled object kept between calls, an error path that leaves state behind); the second and later occurrences of something (second gradient, second chunk, second subpath, second Reset, second call of an option); combinations where two rarely-combined features meet (an adjustment AND a wrap-around, a relative operation right after a close, a smooth operation after a non-curve, a repeat run that ends exactly at a limit followed by a different verb, a gradient AND a level-of-detail range, an option AND a suggested palette); values next to the constants that the changed code compares against; narrowing of an intermediate (float64 -> float32, int -> uint8/int8, int -> uint16) that only matters for extreme but legal values; degenerate but legal geometry and configuration (empty, one-pixel, huge or inverted rectangles; viewBoxes far from the origin or touching it; zero-length segments; coincident points); public API surface that a test generator may not drive at all (exported fields, exported helper functions and types, constructors, options, the logging wrappers, raster/vec, zero values, nil arguments, value copies of objects); the INTERPLAY of two packages (one side stops normalising / masking / clamping something because 'the other side already does', which is true only on the common route). Read the statement clause by clause and look for the clause that is hardest to observe, and prefer a change whose wrong result is small or rare over one whose wrong result is glaring.
 
 For each change number N in 1..%(mx)d deliver, under %(out)s/N/ :
   - patch.diff : output of `git diff` in the worktree containing ONLY the library change (no test files). It must apply to the unchanged tree with `git apply`.
